@@ -99,6 +99,7 @@ class Source:
                 it["file"] = file
                 self.enums[it["name"]] = it
             elif k == "const":
+                it["file"] = file
                 self.consts[it["name"]] = it
             elif k == "mod":
                 self._collect(file, it["items"])
@@ -126,6 +127,35 @@ class Source:
                     if n is not None and p is not None:
                         full = os.path.normpath(os.path.join(os.path.dirname(f.file), p))
                         reg[n] = {"file": full, "registrar": f.qname, "src": f.file, "line": e["ln"]}
+        # the same pairing written without the macro: `("name", include_str!("path"))` rows of a table that a loop hands to add_raw_template,
+        # or add_raw_template("name", include_str!("path")) itself
+
+        def inc_path(e):
+            if e and e.get("k") == "macro" and e.get("name") == "include_str":
+                m = re.match(r'^\s*"((?:[^"\\]|\\.)*)"\s*,?\s*$', e.get("tokens", ""))
+                return m.group(1) if m else None
+            return None
+
+        def scan(e, file, registrar):
+            for x in walk(e):
+                pair = None
+                if x.get("k") == "tuple" and len(x.get("elems", [])) == 2:
+                    pair = x["elems"]
+                elif x.get("k") == "mcall" and x.get("method") == "add_raw_template" and len(x.get("args", [])) == 2:
+                    pair = x["args"]
+                if pair:
+                    n, p_ = lit_str(pair[0]), inc_path(pair[1])
+                    if n is not None and p_ is not None and n not in reg:
+                        full = os.path.normpath(os.path.join(os.path.dirname(file), p_))
+                        reg[n] = {"file": full, "registrar": registrar, "src": file, "line": x.get("ln", 0)}
+        registering_files = {f.file for f in self.fns if f.body is not None and any(e.get("k") == "mcall" and e.get("method") == "add_raw_template" for e in walk_block(f.body))}
+        for f in self.fns:
+            if f.body is not None and f.file in registering_files:
+                for e in walk_block(f.body):
+                    scan(e, f.file, f.qname)
+        for name, c in self.consts.items():
+            if c.get("file") in registering_files and isinstance(c.get("expr"), dict):
+                scan(c["expr"], c["file"], name)
         return reg
 
 
